@@ -59,8 +59,13 @@ def gen_consts():
 
 def theorems_of(module_file):
     """names of theorems declared in a Lean file, qualified by the enclosing namespaces"""
-    names = []; ns = []
+    names = []; ns = []; in_block = False
     for line in open(module_file):
+        if in_block:
+            if '-/' in line: in_block = False
+            continue
+        if '/-' in line and '-/' not in line.split('/-', 1)[1]:
+            in_block = True; continue
         m = re.match(r'\s*namespace\s+(\S+)', line)
         if m: ns.append(m.group(1)); continue
         m = re.match(r'\s*end\s+(\S+)', line)
